@@ -14,12 +14,22 @@ Rec == ndJsonDeserialize(IOEnv.TRACE)
 VARIABLES l, bad
 vars == <<l, bad>>
 
+\* A float literal denoting zero is built as a number denoting zero with the same sign; how the crate's writer spells it
+\* (0, 0.0, -0, -0.0) is not prescribed: zero spellings are normalised on both sides before comparing.
+IsZeroSp(sp) == \A i \in 1..Len(sp) : (\A j \in 1..(i - 1) : sp[j] \notin {69, 101}) => sp[i] \in {45, 48, 46, 69, 101}
+NormNum(sp) == IF IsZeroSp(sp) THEN (IF sp[1] = 45 THEN <<45, 48>> ELSE <<48>>) ELSE sp
+RECURSIVE NormZ(_)
+NormZ(v) == CASE v.t = "num" -> VNum(NormNum(v.num))
+              [] v.t = "arr" -> VArr([i \in 1..Len(v.items) |-> NormZ(v.items[i])])
+              [] v.t = "obj" -> VObj([i \in 1..Len(v.entries) |-> Entry(v.entries[i].k, NormZ(v.entries[i].v))])
+              [] OTHER -> v
+
 Why(e) ==
   IF e.text # Text(e.d) THEN "certificate"                       \* the harness rendered another text than the specification
   ELSE IF MacroValue(Tokens(e.d)) = Stuck THEN "certificate"     \* the harness generated an invocation the macro cannot expand
-  ELSE IF e.built # MacroValue(Tokens(e.d)) THEN "macro_value"
+  ELSE IF NormZ(e.built) # NormZ(MacroValue(Tokens(e.d))) THEN "macro_value"
   ELSE LET r == Run(e.text, Strict) IN
-       IF r.mode # "done" \/ r.val # e.built THEN "differs_from_parse" ELSE ""
+       IF r.mode # "done" \/ NormZ(r.val) # NormZ(e.built) THEN "differs_from_parse" ELSE ""
 
 TrInit == l = 1 /\ bad = <<>>
 TrNext == /\ l <= Len(Rec)
